@@ -23,6 +23,22 @@ def assumptions_for(prop):
     return COMMON_ASSUMPTIONS + PER_PROP_ASSUMPTIONS.get(prop, [])
 
 
+# native replay recipes by clause / function: a sweep program written from the property text for the obligation's
+# input class, or the generic state-injection replay (R2) of step and API obligations
+SWEEPS = {'parse_int_decimal': 'sweep_decoders.c', 'parse_uint_decimal': 'sweep_decoders.c', 'parse_num_hexadecimal': 'sweep_decoders.c',
+          'parse_buffer_hexadecimal': 'sweep_decoders.c', 'parse_buffer_string': 'sweep_decoders.c', 'validate_int_range': 'sweep_decoders.c',
+          'validate_uint_range': 'sweep_decoders.c', 'is_valid_hex_char': 'sweep_decoders.c', 'is_valid_dec_char': 'sweep_decoders.c', 'convert_hex_char_to_value': 'sweep_decoders.c'}
+
+
+def replay_recipe(job, rec):
+    fn = job.get('enforce') or ''
+    if fn in SWEEPS:
+        return {'kind': 'program', 'program': SWEEPS[fn], 'defines': []}
+    if job.get('harness') in ('l1_step.c', 'l1_api.c'):
+        return {'kind': 'r2', 'fallback_program': {'phase-inline': 'f1.c', 'scan-end-none': 'f1.c', 'ok-quiescent': 'f3.c', 'busy-ok-means-idle': 'f4.c', 'list-step': 'f5.c', 'write-dispatch': 'f6.c'}.get(rec.get('tag'))}
+    return job.get('replay')
+
+
 def claimed_properties():
     seen = []
     for j in jobs('quick'):
